@@ -60,6 +60,13 @@ def generate(rng, tier):
         if rng.random() < 0.25 and S.factor_into_macros(rng, r):
             feats = sorted(set(feats) | {"macro"})
         cases.append({"recipe": r, "reps": rng.choice([1, 1, 2, 3]), "features": feats})
+    # a fixed share per directed stream (own rng; see harness/c02.py generate)
+    import random
+    rng2 = random.Random(rng.getrandbits(48) ^ 0xC03)
+    for stream in sorted(set(DIRECTED), key=lambda f: f.__name__):
+        for _ in range(8 if tier == "quick" else 100):
+            r, feats = stream(rng2)
+            cases.append({"recipe": r, "reps": rng2.choice([2, 3, 3, 4]), "features": feats})
     return cases
 
 
